@@ -115,8 +115,10 @@ def generate(rng, tier, idx, force=None):
         cfg["writer"] = False
         kind, call = rng.choice((("enospc", "write"), ("eio", "write"), ("eio", "close"), ("enospc", "mkstemp"),
                                  ("enospc", "mkdir"), ("eio", "rename"), ("short-write", "write"), ("short-write", "write"),
+                                 ("short-writes", "write"), ("short-writes", "write"),
                                  ("rename-fails", "rename"), ("rename-fails", "rename")))
-        faults = [{"kind": kind, "call": call, "nth": 0, "arg": rng.choice((0.1, 0.5, 0.9))}]
+        faults = [{"kind": kind, "call": call, "nth": 0,
+                   "arg": rng.choice((17, 64, 300)) if kind == "short-writes" else rng.choice((0.1, 0.5, 0.9))}]
         if kind == "rename-fails" and rng.random() < 0.5:
             k2, c2 = rng.choice((("enospc", "copy-write"), ("crash-mid", "copy-write"), ("crash-after", "copy-open"),
                                  ("crash-before", "unlink"), ("crash-after", "copy-write")))
@@ -482,7 +484,7 @@ class Driver:
         for n in nodes:
             labels.update(e[2] for e in n.events)
             fired.update(k for (k, _l, _p, _o) in getattr(n, "fired", ()))
-        if "short-write" in fired:
+        if "short-write" in fired or "short-writes" in fired:
             return "short-write"
         if "copy-open" in labels:
             return "copy-fallback"
